@@ -4,6 +4,8 @@ package rules
 import (
 	"sort"
 
+	"golang.org/x/tools/go/ssa"
+
 	"s3dbcheck/an"
 	"s3dbcheck/core"
 )
@@ -15,6 +17,22 @@ type Ctx struct {
 	R *core.Report
 
 	eff *an.Effects
+	idx an.CallSiteIndex
+	scopes map[*ssa.Function]*an.Scope
+}
+
+// Scope returns the anchor function together with the single-caller helpers split out of it.
+func (c *Ctx) Scope(fn *ssa.Function) *an.Scope {
+	if c.idx == nil {
+		c.idx = an.BuildCallSiteIndex(c.P.RepoFuncs(an.LibraryPkg))
+		c.scopes = map[*ssa.Function]*an.Scope{}
+	}
+	if s, ok := c.scopes[fn]; ok {
+		return s
+	}
+	s := an.NewScope(fn, c.idx, 3)
+	c.scopes[fn] = s
+	return s
 }
 
 // Eff returns the effects engine on the VTA graph.
